@@ -46,6 +46,8 @@ def features(m, end):
         f.add('forward_jump')
     if st['pops_of_own_values_from_stack0']:
         f.add('stack0_used_as_data')
+    if st['nan_onto_stack0_after_read']:
+        f.add('nan_onto_stack0_after_read')
     if st['jump_from_first_command']:
         f.add('jump_from_first_command')
     if st['heart_return_to_first_command']:
